@@ -61,7 +61,7 @@ def run(module, cfg=None, env=None, workers=1, coverage=False, simulate=None, de
     res = TLCResult()
     meta = scratch_dir("tlc-meta-")
     cfg = cfg or (module + ".cfg")
-    cmd = ["java", "-XX:+UseParallelGC", "-Xmx" + heap]
+    cmd = ["java", "-XX:+UseParallelGC", "-Xmx" + heap, "-Xss64m"]
     if deque:
         cmd.append("-Dtlc2.tool.queue.IStateQueue=StateDeque")
     cmd += ["-cp", JAR, "tlc2.TLC", "-workers", str(workers), "-metadir", meta,
@@ -130,7 +130,9 @@ def run(module, cfg=None, env=None, workers=1, coverage=False, simulate=None, de
         if m:
             res.violated = m.group(1) or "temporal"
     if res.rc not in (0, 12, 13) and not (res.rc == -9 and simulate is not None):
-        tail = "\n".join(res.out.splitlines()[-40:])
+        lines = [l for l in res.out.splitlines() if not l.startswith('"VERDICT') and l.strip()]
+        first = next((i for i, l in enumerate(lines) if l.startswith("Error") or "Exception" in l), max(0, len(lines) - 30))
+        tail = "\n".join(l[:400] for l in lines[first:first + 30])
         raise MachineryError("TLC failed rc=%s cmd=%s\n%s" % (res.rc, res.cmd, tail))
     if res.rc in (12, 13) and not allow_violation:
         tail = "\n".join(res.out.splitlines()[-60:])
